@@ -39,6 +39,7 @@ func runC13(c *fw.Ctx, idx int) fw.Result {
 	cmd := []string{"snps", "variants", "samvariants"}[r.Intn(3)]
 	appendSNP := r.Chance(0.5)
 	var perSeq, header string
+	sharedName := map[string]bool{}
 	var runAgg func(th float64) (string, error)
 	var binSnps func(th float64, want string)
 	var files map[string]string
@@ -114,7 +115,7 @@ func runC13(c *fw.Ctx, idx int) fw.Result {
 		vp := gen.DefaultVarProfile()
 		vp.Recur = true
 		vp.PSub = 0.03
-		opts := gen.AnnoOpts{MaxFeats: 4, AllowUnnamed: true, AllowSlip: true, SplitCodons: true, Rotate: true, NoStop: true, QuoteNames: true}
+		opts := gen.AnnoOpts{MaxFeats: 4, AllowUnnamed: true, AllowSlip: true, SplitCodons: true, Rotate: true, NoStop: true, QuoteNames: true, DupNames: true, DupOverlap: true}
 		if form == "fasta" && idx%120 == 13 {
 			// a number of sequences with a large power of two in it: frequencies k/n that sit exactly
 			// on a half of the 9th printed decimal (1/1024 = 0.0009765625)
@@ -167,6 +168,11 @@ func runC13(c *fw.Ctx, idx int) fw.Result {
 		runAgg = func(th float64) (string, error) { return ac.runVariants(-1, -1, true, th, appendSNP, thr) }
 		featByName := map[string]gen.Feature{}
 		for _, f := range ac.an.Named() {
+			if _, dup := featByName[f.Name]; dup {
+				// two features under one name: which of them an aa line belongs to, and hence where it
+				// is filed and whether two equal lines are one mutation, cannot be told from the line
+				sharedName[f.Name] = true
+			}
 			featByName[f.Name] = f
 		}
 		posOf = func(ms string) (int, int, bool) {
@@ -178,7 +184,7 @@ func runC13(c *fw.Ctx, idx int) fw.Result {
 				return m.Pos, m.Pos, true
 			}
 			f, ok := featByName[m.Feature]
-			if !ok {
+			if !ok || sharedName[m.Feature] {
 				return 0, 0, false
 			}
 			pos := f.CodingPositions()
@@ -291,6 +297,7 @@ func runC13(c *fw.Ctx, idx int) fw.Result {
 			}
 		}
 		got = map[string]string{}
+		gotAll := map[string][]string{}
 		lastLo := -1
 		for _, l := range alines[1:] {
 			i := strings.LastIndexByte(l, ',')
@@ -300,9 +307,14 @@ func runC13(c *fw.Ctx, idx int) fw.Result {
 			}
 			m, f := l[:i], l[i+1:]
 			if _, dup := got[m]; dup {
-				res.Fail(cmd+":duplicate-line", "mutation listed twice in --aggregate output: "+m, files, argv)
+				if pm, okm := model.ParseMutation(m); okm && pm.Kind == "aa" && sharedName[pm.Feature] {
+					res.Count("aggregate_lines_of_features_sharing_a_name_listed_more_than_once", 1)
+				} else {
+					res.Fail(cmd+":duplicate-line", "mutation listed twice in --aggregate output: "+m, files, argv)
+				}
 			}
 			got[m] = f
+			gotAll[m] = append(gotAll[m], f)
 			lo, hi, ok := posOf(m)
 			if ok {
 				// greedy feasibility of a non-decreasing position choice
@@ -314,7 +326,34 @@ func runC13(c *fw.Ctx, idx int) fw.Result {
 				}
 			}
 		}
+		// the text of an aa line of a feature that shares its name with another does not say which of
+		// the features (which codon) it belongs to: equal texts may be different mutations, each with
+		// its own line. Their exact frequencies are not judged ...
+		unjudged := func(m string) bool {
+			if len(sharedName) == 0 {
+				return false
+			}
+			pm, okm := model.ParseMutation(m)
+			return okm && pm.Kind == "aa" && sharedName[pm.Feature]
+		}
+		// ... but however many mutations hide behind one text, none of them can be in more sequences
+		// than the text is
+		for m, fs := range gotAll {
+			if !unjudged(m) {
+				continue
+			}
+			for _, f := range fs {
+				v, e := strconv.ParseFloat(f, 64)
+				res.Count("aggregate_lines_of_features_sharing_a_name_bounded", 1)
+				if e != nil || v > float64(count[m])/float64(n)+6e-10 {
+					res.Fail(cmd+":frequency-above-share-of-sequences", fmt.Sprintf("%s is reported with frequency %s but the per-sequence output of only %d of %d sequences contains it", m, f, count[m], n), files, argv)
+				}
+			}
+		}
 		for m, f := range expect {
+			if unjudged(m) {
+				continue
+			}
 			g, ok := got[m]
 			if !ok {
 				res.Fail(cmd+":missing-line:"+t.kind, fmt.Sprintf("%s occurs in %d of %d sequences (frequency %s >= threshold %v) but is not in the --aggregate output", m, count[m], n, f, th), files, argv)
@@ -323,6 +362,9 @@ func runC13(c *fw.Ctx, idx int) fw.Result {
 			}
 		}
 		for m, g := range got {
+			if unjudged(m) {
+				continue
+			}
 			if _, ok := expect[m]; !ok {
 				res.Fail(cmd+":extra-line:"+t.kind, fmt.Sprintf("%s,%s is in the --aggregate output but occurs in %d of %d sequences with threshold %v", m, g, count[m], n, th), files, argv)
 			}
